@@ -389,6 +389,17 @@ func (c *Conv) Expr(e ast.Expr) (string, error) {
 		}
 		c.Stats["EBinary"]++
 		return fmt.Sprintf("(EBinary %s %s %s)", op, x, y), nil
+	case *ast.StarExpr:
+		// *p for a pointer to an array of integers
+		if t, err := ModelType(c.Info.TypeOf(e.X)); err != nil || t != "TPArr" {
+			return "", fmt.Errorf("dereference of %s", c.Info.TypeOf(e.X))
+		}
+		x, err := c.Expr(e.X)
+		if err != nil {
+			return "", err
+		}
+		c.Stats["EDeref"]++
+		return "(EDeref " + x + ")", nil
 	case *ast.IndexExpr:
 		x, err := c.Expr(e.X)
 		if err != nil {
